@@ -6,6 +6,7 @@ import (
 	"go/token"
 	"os"
 	"path/filepath"
+	"sort"
 	"strconv"
 	"strings"
 )
@@ -385,6 +386,12 @@ func genGrammar(c *ctx, s *schema, which string) {
 		}
 		fmt.Fprintf(&b, "def %s : List %s := %s\n", name, typ, strings.Join(names, " ++ "))
 	}
+	// grammar-independent signature of each production (shared intern table): "lhs: rhs…"
+	var sigs []string
+	for _, p := range g.Prods {
+		sigs = append(sigs, strconv.Itoa(c.intern("sig:"+p.Lhs+": "+strings.Join(p.Rhs, " "))))
+	}
+	chunk("prodSig"+sfx, "Nat", sigs)
 	chunk("prods"+sfx, "(Nat × List Nat)", rows)
 	chunk("prodBrackets"+sfx, "(List Nat)", brs)
 	chunk("symIsTerminal"+sfx, "Bool", isT)
@@ -415,6 +422,33 @@ func genGrammar(c *ctx, s *schema, which string) {
 	chunk("precDecl"+sfx, "(Nat × Nat × Nat)", precs)
 	b.WriteString("\nend PhpVerif.Gen\n")
 	writeIfChanged(filepath.Join(c.out, "Grammar"+sfx+".lean"), b.String())
+	// pairs of identically spelled productions (emitted with the second grammar)
+	sigOf := map[string]int{}
+	for _, p := range g.Prods {
+		sigOf[p.Lhs+": "+strings.Join(p.Rhs, " ")] = p.N
+	}
+	if c.sigs == nil {
+		c.sigs = map[string]map[string]int{}
+	}
+	c.sigs[which] = sigOf
+	if len(c.sigs) == 2 {
+		var pairs []string
+		var keys []string
+		for k := range c.sigs["php7"] {
+			keys = append(keys, k)
+		}
+		sort.Strings(keys)
+		for _, k := range keys {
+			if n5, ok := c.sigs["php5"][k]; ok {
+				pairs = append(pairs, fmt.Sprintf("(%d, %d)", n5, c.sigs["php7"][k]))
+			}
+		}
+		var mb strings.Builder
+		mb.WriteString("-- GENERATED by gofacts: (php5 production, php7 production) pairs that php5.y and php7.y spell identically. Do not edit.\nnamespace PhpVerif.Gen\n\n")
+		mbs := strings.Replace(mb.String(), "\\n", "\n", -1)
+		mbs += fmt.Sprintf("def matchedPairs : List (Nat × Nat) := [%s]\n\nend PhpVerif.Gen\n", strings.Join(pairs, ", "))
+		writeIfChanged(filepath.Join(c.out, "Matched.lean"), strings.Replace(mbs, "\\n", "\n", -1))
+	}
 	c.side["grammar"+sfx] = map[string]interface{}{"prods": g.Prods, "symbols": symNames, "prec": precJSON, "token_type": g.TokenType, "nt_type": g.NtType}
 	genActions(c, s, which, g, gf)
 }
